@@ -2,7 +2,7 @@
    Statements only; proofs are in Proofs/ValidateOverlap.v and Proofs/ValidateRules.v. *)
 From Coq Require Import List NArith ZArith String Bool.
 From GQL Require Import Exec.Syntax Validate.VSyntax Validate.Overlap Validate.OverlapSpec Validate.Rules
-     Exec.Exec Proofs.ValidateOverlap Proofs.ValidateRules Proofs.ValidateMerge.
+     Exec.Exec Proofs.ValidateOverlap Proofs.ValidateRules Proofs.ValidateMerge Proofs.ValidateMemo.
 Import ListNotations.
 Open Scope string_scope.
 
@@ -28,6 +28,23 @@ Theorem C02_overlap_decomposition_generic : forall S D base,
   ((forall s, sets s -> within S D base s) <-> (forall s, sets s -> L1 S D base s)).
 Proof. exact decomposition_iff. Qed.
 Print Assumptions C02_overlap_decomposition_generic.
+
+(* Memo transparency, one direction (partial).  On a document on which every check of the
+   decomposition passes, the executable algorithm reports no conflict -- with the memo
+   tables comparedSet / comparedFieldsAndFragmentSet (L3, memo = true) and without them
+   (memo = false), for every fuel: the memo tables never make the rule reject.
+   Missing: the converse (a conflict found without memo is found with it); it is checked
+   by the differential against L1 only. *)
+Theorem C02_overlap_memo_transparent_partial : forall S D memo fuel,
+  L2_accepts S D -> run_overlap S D memo fuel = [].
+Proof. exact L2_accepts_exec. Qed.
+Print Assumptions C02_overlap_memo_transparent_partial.
+
+(* Hence the model of the rule never rejects a document that satisfies the specification L1. *)
+Theorem C02_overlap_accepts_valid : forall S D memo fuel,
+  acyclic S D -> L1_accepts S D -> run_overlap S D memo fuel = [].
+Proof. exact L1_accepts_exec. Qed.
+Print Assumptions C02_overlap_accepts_valid.
 
 (* L0, merge safety, one level (partial: the recursion into the merged sub-selections of a
    group is not stated).  If a selection set passes L1 and its parent type matches the
